@@ -12,8 +12,10 @@ mod zr;
 use ark_ec::models::short_weierstrass::{self as sw, SWCurveConfig};
 use ark_ec::models::twisted_edwards::{self as te, TECurveConfig};
 use ark_ec::scalar_mul::variable_base::{ChunkedPippenger, HashMapPippenger};
+use ark_ec::pairing::{Pairing, PairingOutput};
 use ark_ec::{PrimeGroup, VariableBaseMSM};
-use ark_ff::{AdditiveGroup, PrimeField};
+use ark_ff::{AdditiveGroup, Field, PrimeField};
+use ark_std::iterable::Reverse;
 use num_bigint::BigUint;
 use num_traits::{One, Zero};
 use std::sync::Arc;
@@ -160,13 +162,9 @@ fn splitmix(x: u64) -> u64 {
     z ^ (z >> 31)
 }
 
-/// shipped curve: pool of 1 + 2*`pairs` multiples of the generator (identity, then (a, r-a) pairs)
-fn shipped_ctx<G: VariableBaseMSM>(name: &str, pairs: usize, cfg_msm: fn(&[Mb<G>], &[Sc<G>]) -> Result<G, usize>) -> Ctx<G> {
-    let r = modulus_of::<Sc<G>>();
-    let gen = G::generator();
-    assert!(ref_mul(&gen, &r).is_zero(), "{}: r*G != O", name);
-    assert!(!gen.is_zero());
-    // pool[0] = identity, then pairs (a, r-a): pool[1] = G, pool[2] = -G, 2, 3, (r-1)/2 and fixed pseudo-random constants
+/// exponents of a pool of 1 + 2*`pairs` multiples of the generator: pool[0] = identity, then pairs (a, r-a):
+/// 1, 2, 3, (r-1)/2 and fixed pseudo-random constants; `neg[i]` = index of the negation of pool[i]
+fn pool_exps(r: &BigUint, pairs: usize) -> (Vec<BigUint>, Vec<usize>) {
     let mut exps: Vec<BigUint> = vec![BigUint::zero()];
     let mut neg = vec![0usize];
     let mut k = 0u64;
@@ -175,7 +173,7 @@ fn shipped_ctx<G: VariableBaseMSM>(name: &str, pairs: usize, cfg_msm: fn(&[Mb<G>
             0 => BigUint::one(),
             1 => BigUint::from(2u32),
             2 => BigUint::from(3u32),
-            3 => (&r - 1u32) >> 1,
+            3 => (r - 1u32) >> 1,
             _ => {
                 let limbs = (r.bits() as usize + 63) / 64 + 1;
                 let mut d = Vec::new();
@@ -183,16 +181,55 @@ fn shipped_ctx<G: VariableBaseMSM>(name: &str, pairs: usize, cfg_msm: fn(&[Mb<G>
                     k += 1;
                     d.push(splitmix(k.wrapping_mul(0x2545f4914f6cdd1d)) as u32);
                 }
-                BigUint::new(d) % &r
+                BigUint::new(d) % r
             },
         };
         let i = exps.len();
-        let na = (&r - &a) % &r;
+        let na = (r - &a) % r;
         exps.push(a);
         neg.push(i + 1);
         exps.push(na);
         neg.push(i);
     }
+    (exps, neg)
+}
+
+/// The target group of a pairing as an MSM group (`impl VariableBaseMSM for PairingOutput` in ec/src/pairing.rs; written
+/// additively: + is the field multiplication, negation the cyclotomic inverse, doubling the cyclotomic square).
+/// Generator: e(G1, G2) as the library computes it (the pairing itself is C06's subject; here it is only *an element*,
+/// whose order is verified to be r with plain field arithmetic). Reference map e -> gen^e: square-and-multiply over the
+/// target field's `square` and `*` only - no cyclotomic shortcut, no `PairingOutput` operation.
+fn pairing_ctx<E: Pairing>(name: &str, pairs: usize) -> Ctx<PairingOutput<E>> {
+    let r = modulus_of::<E::ScalarField>();
+    let gen = <PairingOutput<E> as PrimeGroup>::generator().0;
+    fn fpow<F: Field>(b: &F, e: &BigUint) -> F {
+        let mut acc = F::one();
+        for i in (0..e.bits()).rev() {
+            acc = acc.square();
+            if e.bit(i) {
+                acc *= b;
+            }
+        }
+        acc
+    }
+    assert!(!gen.is_one() && fpow(&gen, &r).is_one(), "{}: e(G1, G2) does not have order r", name);
+    let (exps, neg) = pool_exps(&r, pairs);
+    let pts: Vec<(BigUint, PairingOutput<E>)> = exps.iter().map(|a| (a.clone(), PairingOutput(fpow(&gen, a)))).collect();
+    base_ctx::<PairingOutput<E>>(
+        name,
+        <PairingOutput<E> as ark_ec::ScalarMul>::NEGATION_IS_CHEAP,
+        Bases::Pool { pts, neg },
+        Box::new(move |e| PairingOutput(fpow(&gen, e))),
+    )
+}
+
+/// shipped curve: pool of 1 + 2*`pairs` multiples of the generator (identity, then (a, r-a) pairs)
+fn shipped_ctx<G: VariableBaseMSM>(name: &str, pairs: usize, cfg_msm: fn(&[Mb<G>], &[Sc<G>]) -> Result<G, usize>) -> Ctx<G> {
+    let r = modulus_of::<Sc<G>>();
+    let gen = G::generator();
+    assert!(ref_mul(&gen, &r).is_zero(), "{}: r*G != O", name);
+    assert!(!gen.is_zero());
+    let (exps, neg) = pool_exps(&r, pairs);
     let pts: Vec<(BigUint, Mb<G>)> = exps.iter().map(|a| (a.clone(), <Mb<G> as From<G>>::from(ref_mul(&gen, a)))).collect();
     for (i, (a, _)) in pts.iter().enumerate() {
         assert!(((a + &pts[neg[i]].0) % &r).is_zero(), "pool negation table");
@@ -555,6 +592,16 @@ fn msm_rel<G: VariableBaseMSM>(cx: &Ctx<G>, t: &mut Tape<'_>, o: &mut Obs, lc: &
     let (sb, ss) = (&bases[..n], &scal[..n]);
     let got = no_panic("msm_chunks", || G::msm_chunks(&sb, &ss))?;
     check_eq(&got, &want, "msm_chunks", &ctx)?;
+    if n <= 1 << 16 || e.k[0].bit(0) {
+        // the same streams handed over back to front through the `Reverse` adaptor of ark_std::iterable (how streaming
+        // callers hold coefficient vectors): an `Iterable` that is not a slice
+        let rb: Vec<Mb<G>> = sb.iter().rev().copied().collect();
+        let rs: Vec<Sc<G>> = ss.iter().rev().copied().collect();
+        let (rbs, rss) = (&rb[..], &rs[..]);
+        let got = no_panic("msm_chunks.reverse", || G::msm_chunks(&Reverse(rbs), &Reverse(rss)))?;
+        check_eq(&got, &want, "msm_chunks.reverse", &ctx)?;
+        o.evals(1);
+    }
     if lb > ls {
         // a base stream longer than the scalar stream is accepted (the function asserts scalars <= bases) and
         // "aligned" by discarding the leading lb - ls bases: scalar i goes with base lb - ls + i
@@ -788,6 +835,9 @@ fn relations(tier: Tier) -> Vec<Rel> {
     zr!(zoo::Bls381Fr, "Bls381Fr", 1500, 0, false); // 4 limbs, 255 bits
     zr!(zoo::T251, "T251", 2000, 0, false); // 8 bits
     zr!(zoo::T3, "T3", 1000, tier.pick(4, 5), false); // 2 bits: the window is always wider than the scalar
+    zr!(zoo::P192, "P192", 400, 0, false); // 3 limbs, 192-bit modulus, no spare bit (192 = 3*64 = 6*32 = 12*16)
+    zr!(zoo::N6, "N6", 400, 0, false); // 6 limbs, 384-bit modulus, no spare bit
+    zr!(zoo::N12, "N12", 250, 0, false); // 12 limbs, no spare bit
 
     // (ii) toy curves (bases: the whole prime-order subgroup, table from the affine oracle law)
     let toy_b = |big: bool| Budget {
@@ -829,17 +879,27 @@ fn relations(tier: Tier) -> Vec<Rel> {
         shipped_ctx::<ark_secp256k1::Projective>("secp256k1", 20, <ark_secp256k1::Config as SWCurveConfig>::msm),
         ship_b(),
     );
+    // (iv) target groups of pairings (`impl VariableBaseMSM for PairingOutput`, every method the trait default)
+    let pair_b = || Budget {
+        msm: q(40, 600),
+        hist: q(20, 300),
+        len: LenCfg { max_pow: tier.pick(6, 8), max_uniform: tier.pick(70, 300) },
+        max_ops: tier.pick(40, 120),
+    };
+    add_group(&mut out, pairing_ctx::<ark_bls12_381::Bls12_381>("PairingOutput.bls12_381", 8), pair_b());
+    add_group(&mut out, pairing_ctx::<ark_mnt4_298::MNT4_298>("PairingOutput.mnt4_298", 8), pair_b());
+    add_group(&mut out, pairing_ctx::<ark_mnt6_298::MNT6_298>("PairingOutput.mnt6_298", 8), pair_b());
     out
 }
 
 fn main() {
     vh_core::engine::main(PropSpec {
         id: "C05",
-        rule: "An instance is a length pair (|bases|, |scalars|) (0, 1, 2, 3..30, 31..33, 2^k-1..2^k+2 for every k up to the tier bound – this brackets every change of the window size c = ln_without_floats(n)+2 – and uniform; equal, or one side longer by 1, 2 or up to 40) and a vector of (base, scalar) pairs decoded from a proptest tape (up to 24 pairs word by word, longer vectors by deterministic block expansion of one tape word). Bases are known multiples a*Gen (fresh edge value / pool point, repeat of an earlier base, negation of the previous base, identity); scalars are edge values of the scalar field (0, 1, 2, r-1, near r, 2^k±1, edge limbs, uniform), r-1-x at every scale (saturates the top windows), small, repeat or negation of the previous scalar; modes: all scalars near r, a single repeated base, all scalars in {0,1,2}. Groups: the harness group Zr = (F,+) with NEGATION_IS_CHEAP = false (plain-bucket implementation) and = true (signed-digit) over a 64-bit no-spare-bit field, a 2-limb, a 4-limb, an 8-bit and a 2-bit field; toy SW/TE curves; BLS12-381 G1, ed_on_bls12_381, secp256k1. Every entry point (msm, msm_unchecked, msm_bigint, msm_chunks, SWCurveConfig/TECurveConfig::msm) must return (Σ k_i a_i mod r)*Gen, Err(min) for unequal lengths on checked entry points. Histories: a sequence of Add(base, scalar) | AddSameBase(scalar) | Finalize decoded from the tape is run through ChunkedPippenger and HashMapPippenger with buffer sizes in 1..=adds+1 (a new accumulator after each Finalize); finalize must equal the model sum. A case is non-trivial when the usable length is >= 2 and some scalar has a bit in the last window (k >= 2^(c*(digits-1))) or a base is repeated, or (histories) a flush happens before finalize; distinct = distinct decoded choice sequences.",
+        rule: "An instance is a length pair (|bases|, |scalars|) (0, 1, 2, 3..30, 31..33, 2^k-1..2^k+2 for every k up to the tier bound – this brackets every change of the window size c = ln_without_floats(n)+2 – and uniform; equal, or one side longer by 1, 2 or up to 40) and a vector of (base, scalar) pairs decoded from a proptest tape (up to 24 pairs word by word, longer vectors by deterministic block expansion of one tape word). Bases are known multiples a*Gen (fresh edge value / pool point, repeat of an earlier base, negation of the previous base, identity); scalars are edge values of the scalar field (0, 1, 2, r-1, near r, 2^k±1, edge limbs, uniform), r-1-x at every scale (saturates the top windows), small, repeat or negation of the previous scalar; modes: all scalars near r, a single repeated base, all scalars in {0,1,2}. Groups: the harness group Zr = (F,+) with NEGATION_IS_CHEAP = false (plain-bucket implementation) and = true (signed-digit) over a 64-bit no-spare-bit field, a 2-limb, a 3-limb (192 bits), a 4-limb, a 6-limb (384 bits), a 12-limb (768 bits), an 8-bit and a 2-bit field; toy SW/TE curves; BLS12-381 G1, ed_on_bls12_381, secp256k1; the pairing target groups PairingOutput<Bls12_381>, <MNT4_298>, <MNT6_298> (bases = known powers of e(G1,G2), whose order r is verified with plain field arithmetic; lengths up to 70, thorough 300). msm_chunks is additionally called on the reversed streams through ark_std's Reverse adaptor. Every entry point (msm, msm_unchecked, msm_bigint, msm_chunks, SWCurveConfig/TECurveConfig::msm) must return (Σ k_i a_i mod r)*Gen, Err(min) for unequal lengths on checked entry points. Histories: a sequence of Add(base, scalar) | AddSameBase(scalar) | Finalize decoded from the tape is run through ChunkedPippenger and HashMapPippenger with buffer sizes in 1..=adds+1 (a new accumulator after each Finalize); finalize must equal the model sum. A case is non-trivial when the usable length is >= 2 and some scalar has a bit in the last window (k >= 2^(c*(digits-1))) or a base is repeated, or (histories) a flush happens before finalize; distinct = distinct decoded choice sequences.",
         assumptions: &[
             "num-bigint arithmetic is correct (dot product mod r)",
             "the harness group Zr uses arkworks prime-field addition (C01's subject) as its group law",
-            "toy-curve tables come from the textbook affine law of vh_core::curve; shipped-curve reference multiples use arkworks' projective add/double (C03's subject) in a naive double-and-add",
+            "toy-curve tables come from the textbook affine law of vh_core::curve; shipped-curve reference multiples use arkworks' projective add/double (C03's subject) in a naive double-and-add; pairing target groups: reference powers by square-and-multiply over the target field's square and * (C02's subject), e(G1,G2) only serves as an element of verified order r",
             "bases are members of the prime-order subgroup (AffineRepr contract); msm_bigint is called with integers below r (what every caller in the library passes); msm_chunks is called with streams of equal length, and with a longer base stream, where the code's alignment (scalars go with the last |scalars| bases) is the reference",
         ],
         relations,
